@@ -563,25 +563,27 @@ func (self *Lexer) makeAnd() Token {
 
 func (self *Lexer) makeBitXor() Token {
 	startLocation := self.location
-	self.advance()
 
 	tokenKind := BitXor
 	value := "^"
 
-	if self.currentChar != nil && *self.currentChar == '=' {
+	if self.nextChar != nil && *self.nextChar == '=' {
 		tokenKind = BitXorAssign
 		value = "^="
 		self.advance()
 	}
 
-	return newToken(
+	token := newToken(
 		tokenKind,
 		value,
 		errors.Span{
-			Start: startLocation,
-			End:   self.location,
+			Start:    startLocation,
+			End:      self.location,
+			Filename: self.filename,
 		},
 	)
+	self.advance()
+	return token
 }
 
 func (self *Lexer) makeNot() Token {
